@@ -39,7 +39,7 @@ def main():
                 rows[p[0]][p[1]] = (p[2], p[4] if len(p) > 4 else "")
     out = ["# Seeded changes\n",
            "Every directory holds `patch.diff` (applies to /repo HEAD with `git apply`), `meta.json` and, for the changes written by",
-           "independent sub-agents (`<Cxx>-A…Z`: thirteen rounds — A/B, C/D, E/F, G/H two per property, I/J/K three per property, L/M, N/O, P/Q, R/S, T/U, V/W, X/Y two per property, Z one each for twelve properties, run against the targeted check only; the agent saw only the text of the property),",
+           "independent sub-agents (`<Cxx>-A…Z`: thirteen rounds — A/B, C/D, E/F, G/H two per property, I/J/K three per property, L/M, N/O, P/Q, R/S, T/U, V/W, X/Y two per property, Z one per property, run against the targeted check only; the agent saw only the text of the property),",
            "a demonstration `demo_test.go` (drop into `jen/` — fails with the change, passes without) and the agent's `NOTES.md`.",
            "`own-<Cxx>-<name>` are the framework author's sensitivity mutants (DESIGN.md section 8). All build, and all pass the",
            "153 existing tests. `caught by` is from `tools/seeded_matrix.sh quick` (MATRIX.tsv): the quick tier of each check run on",
